@@ -447,7 +447,7 @@ func (conn *Conn) internalConnect(ctx context.Context) error {
 
 	conn.postConnect(ctx, true)
 	conn.connected = true
-	vhook("conn.up", conn)
+	vhook("conn.up", conn, conn.sock)
 	return nil
 }
 
@@ -675,7 +675,7 @@ func (conn *Conn) close(sock net.Conn) error {
 	// as calling sock.Close() will cause recv() to receive EOF in readstring()
 	conn.lifeMu.Lock()
 	conn.mu.Lock()
-	vhook("close.lock", conn)
+	vhook("close.lock", conn, sock)
 	if !conn.connected || (sock != nil && sock != conn.sock) {
 		vhook("close.noop", conn)
 		conn.mu.Unlock()
